@@ -40,6 +40,8 @@ def time_grid(kind: str, n: int, T: float, seed: int = 0) -> np.ndarray:
     if kind == "drift":  # evenly spaced up to a smooth 1e-3 stretch (a grid assembled from slightly uneven stamps)
         x = np.linspace(0.0, 1.0, n)
         return T * x * (1 + 1e-3 * x) / (1 + 1e-3)
+    if kind == "repeat":  # repeated stamps (dt = 0) at the start and later, then steps of 1e3 .. 1e7: a step that changes
+        return np.array([0.0, 0.0, 1e-3, 1e-3, 1.0, 1e3, 1e3, 1e6, 1e7][:max(n, 4)])  # nothing is not "steady state"
     if kind == "tiny":  # increments of 1e-9 .. 8e-9
         dt = 1e-9 * (1 + (np.arange(n - 1) % 8))
         return np.concatenate([[0.0], np.cumsum(dt)])
